@@ -103,6 +103,12 @@ CONTRACTS.update({
  'StatusAttribute.convert_status[bool]': dict(
     target='StatusAttribute.convert_status', props=['C05'], params={'val': 'bool'}, returns='int',
     ensures=[('true-is-1-false-is-0', 'result == (1 if val else 0)')]),
+ # C05 / C06 / C12 "integers outside their code's range ... raise": a status given as a float is the integer it denotes or is rejected -
+ # never truncated (0.5 is not 0, 1.5 is not 1)
+ 'StatusAttribute.convert_status[float]': dict(
+    target='StatusAttribute.convert_status', props=['C05', 'C06', 'C12'], params={'val': 'opq:float'}, returns='int',
+    raises={'ValueError': 'not float(val).is_integer() or (int(val) != 0 and int(val) != 1)'},
+    ensures=[('the-integer-it-denotes', 'result == int(val)')]),
  'FrameItem.convert_encrypted[int]': dict(
     target='FrameItem.convert_encrypted', props=['C05', 'C12'], params={'value': 'int'}, returns='int',
     raises={'ValueError': 'value != 0 and value != 1'}, ensures=[('kept', 'result == value')]),
@@ -187,3 +193,15 @@ CONTRACTS['OriginItem._run_checks_and_set_defaults'] = dict(
     modifies=['self.field_name._value'], exc_modifies=['self.field_name._value'],
     ensures=[('field-name-given-by-the-user-is-kept', 'implies(old(self.field_name._value) is not None, self.field_name._value is old(self.field_name._value))'),
              ('documented-default-WILDCAT-only-when-unset', "implies(old(self.field_name._value) is None, self.field_name._value == converted(self.field_name, 'WILDCAT'))")])
+
+
+# ---------------------------------------------------------------------------------------------- C12: ragged values are refused
+# "degenerate but representable inputs are either rejected or encoded faithfully": a nested value whose rows differ in length has no
+# DIMENSION it could be written with - it is refused when it is assigned (PARAMETER / COMPUTATION values, CALIBRATION-MEASUREMENT samples)
+SPEC_UFS = dict(globals().get('SPEC_UFS', {}), np_ragged=(('opq',), 'bool'))
+OPQ_MODELS['nested'] = {'__isinstance__': {'list': True, 'tuple': False}}
+CONTRACTS['DimensionedItem._check_or_set_value_dimensionality'] = dict(
+    props=['C12', 'C04', 'C05'], self_fields={'dimension': {'cls': 'Attribute', 'fields': {'_value': 'oneof[none,list[int]*0,list[int]*1]'}}},
+    params={'value': 'oneof[none,opq:nested]', 'value_label': 'str?'}, returns='none',
+    may_raise=['RuntimeError', 'AnyException'],
+    ensures=[('a-ragged-value-is-never-accepted', 'value is None or not np_ragged(value)')])
